@@ -71,6 +71,24 @@ def v_coerce(x):
     return x
 
 
+_INC = {}
+
+
+def canon(n):
+    v = _INC.get(n)
+    if v is None:
+        v = _INC[n] = V(n)
+    return v
+
+
+def v_inc(x):
+    """deterministic but NOT idempotent: validating an already validated item changes it
+    again, so any operation that re-validates stored items becomes visible"""
+    if x is BAD:
+        raise TraitError("bad item")
+    return canon(x.n + 1)
+
+
 class Holder(HasTraits):
     xs = List(Instance(V))
 
@@ -82,7 +100,7 @@ def v_tlo(x):
 
 
 FLAVOURS = {
-    "none": v_none, "reject": v_reject, "coerce": v_coerce, "tlo": v_tlo,
+    "none": v_none, "reject": v_reject, "coerce": v_coerce, "tlo": v_tlo, "inc": v_inc,
 }
 
 
@@ -139,13 +157,15 @@ def apply_op(target, op, validate):
             return target.remove(DUMMY)
         j = op[1]
         return target.remove(target[j] if -len(target) <= j < len(target) else DUMMY)
+    # the list itself as the argument: the real list gets ITSELF (aliasing), the model gets
+    # the validated copy of its own contents
     if name == "extend_self":
-        return target.extend(target)
+        return target.extend(target if validate is None else [v(x) for x in list(target)])
     if name == "iadd_self":
-        r = target.__iadd__(target)
+        r = target.__iadd__(target if validate is None else [v(x) for x in list(target)])
         return "SELF" if r is target else r
     if name == "setitem_self":
-        target[mk_key(op[1])] = target
+        target[mk_key(op[1])] = target if validate is None else [v(x) for x in list(target)]
         return None
     if name == "clear":
         return target.clear()
@@ -469,9 +489,9 @@ def run(ctx):
     events = []
     # ---- exhaustive single operations -----------------------------------
     gi = 0
-    for flavour in ("reject", "coerce", "none", "tlo"):
+    for flavour in ("reject", "coerce", "none", "tlo", "inc"):
         for L in range(0, Lmax + 1):
-            if flavour in ("none",) and L > Lmax - 1:
+            if flavour in ("none", "inc") and L > Lmax - 1:
                 continue
             batch = []
             for op in single_ops(L, flavour):
@@ -484,7 +504,7 @@ def run(ctx):
                 for op in batch:
                     items = [V(i) for i in range(L)]
                     tl, holder = make(flavour, items, events)
-                    model = list(items)
+                    model = list(tl)          # the validated initial items
                     check_one(ctx, flavour, tl, model, op, events, holder)
                     ctx.count("exhaustive_cases")
                 if batch:
@@ -500,13 +520,13 @@ def run(ctx):
             continue
         try:
             rng = ctx.rng("hist", h)
-            flavour = rng.choice(["reject", "coerce", "tlo", "reject", "coerce", "none"])
+            flavour = rng.choice(["reject", "coerce", "tlo", "reject", "coerce", "none", "inc"])
             L0 = rng.randint(0, 6)
             items = [V(i) for i in range(L0)]
             if L0 > 2 and rng.random() < 0.3:
                 items[1] = items[0]          # duplicates: remove/index semantics
             tl, holder = make(flavour, items, events)
-            model = list(items)
+            model = list(tl)
             ops = []
             for step in range(25):
                 op = random_op(rng, len(model), flavour)
